@@ -51,11 +51,11 @@ pub(crate) fn inject(prop: &str, s: &mut Scenario, r: &mut Rng, pool: &[KeyInfo]
     let kinds: &[&str] = match prop {
         "C01" => &["caller_empty", "caller_superset", "caller_disjoint", "caller_alias", "owner_sig_missing", "owner_sig_corrupt", "owner_sig_mislabel", "owner_sig_duplicated", "owner_sig_duplicated_apart", "layout_tampered", "layout_command_resplit", "not_a_layout", "extra_sig", "none"],
         "C06" => &["expired_1s", "expired_long", "expires_now", "expires_plus1", "offset_notation", "offset_expired", "sub_expired", "none"],
-        "C02" => &["link_removed", "link_wrong_signer", "link_mislabel", "link_tampered", "link_corrupt", "link_unauthorized", "key_not_in_table", "link_garbage", "link_misfiled", "link_cosigned_forgery", "threshold_zero_nolinks", "threshold_zero_onelink", "threshold_raised", "link_wrong_type", "none"],
-        "C07" => &["disagree_product_digest", "disagree_material_path", "disagree_extra_entry", "disagree_t1", "agree_extra_differs", "none"],
-        "C13" => &["differing_links_t1", "differing_links_t1_rules", "none", "link_removed", "disagree_product_digest", "disagree_extra_entry"],
+        "C02" => &["link_removed", "link_wrong_signer", "link_mislabel", "link_tampered", "link_corrupt", "link_unauthorized", "key_not_in_table", "link_garbage", "link_misfiled", "link_cosigned_forgery", "cosigned_next_to_differing", "threshold_zero_nolinks", "threshold_zero_onelink", "threshold_raised", "link_wrong_type", "none"],
+        "C07" => &["disagree_product_digest", "disagree_material_path", "disagree_extra_entry", "disagree_t1", "agree_extra_differs", "cosigned_next_to_differing", "none"],
+        "C13" => &["differing_links_t1", "differing_links_t1_rules", "none", "link_removed", "disagree_product_digest", "disagree_extra_entry", "cosigned_next_to_differing", "cosigned_next_to_differing"],
         "C08" => &["insp_exit", "insp_notfound", "insp_rule", "pre_expired", "pre_badsig", "pre_link_removed", "pre_rule", "pre_disagree", "none"],
-        "C15" => &["no_steps", "no_steps_inner", "sub_wrong_signer", "sub_expired", "sub_missing_link", "sub_links_in_parent", "sub_rule", "sub_unauthorized_inner", "sub_tampered", "sub_insp_exit", "sub_insp_rule", "none"],
+        "C15" => &["no_steps", "no_steps_inner", "sub_wrong_signer", "sub_expired", "sub_missing_link", "sub_links_in_parent", "sub_rule", "sub_unauthorized_inner", "sub_tampered", "sub_insp_exit", "sub_insp_rule", "sub_dir_misnamed", "sub_dir_misnamed", "none"],
         _ => &["none"],
     };
     let kind = *r.pick(kinds);
@@ -301,6 +301,43 @@ pub(crate) fn inject_kind(prop: &str, kind: &str, s: &mut Scenario, r: &mut Rng,
             }
             Some(("C02", format!("a link filed under one functionary carries only another functionary's valid signature (step {})", l.steps[si].name), true))
         }
+        "cosigned_next_to_differing" => {
+            // functionaries A and B of one step each filed a link; A's file is co-signed (validly) by B,
+            // and B's own link reports other artifacts. A's file is evidence of A only: with threshold 1
+            // the outcome is the same on every run, with threshold >= 2 the two links disagree.
+            let l = layout_mut(&mut s.block)?.clone();
+            let si = (0..l.steps.len()).find(|&i| evidence_files(&s.dir, &l.steps[i].name).len() >= 2)?;
+            let name = l.steps[si].name.clone();
+            let idx = evidence_files(&s.dir, &name);
+            let signer_of = |f: usize| -> Option<usize> {
+                let fname = &s.dir.files[f].0;
+                let short = fname[name.len() + 1..fname.len() - 5].to_string();
+                l.steps[si].pubkeys.iter().copied().find(|&k| prefix8(pool, k) == short)
+            };
+            let (fa, fb) = if r.chance(1, 2) { (idx[0], idx[1]) } else { (idx[1], idx[0]) };
+            let (a, b) = (signer_of(fa)?, signer_of(fb)?);
+            if let SFile::Block(blk) = &mut s.dir.files[fa].1 {
+                if !matches!(blk.meta, SMeta::Link(_)) {
+                    return None;
+                }
+                blk.sigs = if r.chance(1, 2) {
+                    vec![SSig { label: a, signer: a, corrupt: false }, SSig { label: b, signer: b, corrupt: false }]
+                } else {
+                    vec![SSig { label: b, signer: b, corrupt: false }, SSig { label: a, signer: a, corrupt: false }]
+                };
+            }
+            if let SFile::Block(blk) = &mut s.dir.files[fb].1 {
+                match &mut blk.meta {
+                    SMeta::Link(lk) => lk.prods.push(("only-in-the-co-signers-own-link".into(), 2)),
+                    _ => return None,
+                }
+            }
+            if l.steps[si].threshold >= 2 {
+                Some(("C07", format!("links of a multi-party step disagree ({}, a co-signed link next to the co-signer's own differing link)", name), true))
+            } else {
+                None
+            }
+        }
         "threshold_zero_nolinks" => {
             let l = layout_mut(&mut s.block)?;
             let si = r.below(l.steps.len());
@@ -514,6 +551,40 @@ pub(crate) fn inject_kind(prop: &str, kind: &str, s: &mut Scenario, r: &mut Rng,
                         let il = layout_mut(b)?;
                         il.steps[0].prods = vec![ArtifactRule::Disallow(vp("*"))];
                         desc = "an artifact rule inside the sub-layout fails".into();
+                    }
+                    "sub_dir_misnamed" => {
+                        // the sub-layout's links sit in a directory whose name is close to, but not,
+                        // <step>.<key id prefix>
+                        let il = layout_mut(b)?.clone();
+                        if il.steps.is_empty() {
+                            return None;
+                        }
+                        let sp = subdir_pos?;
+                        let step = l.steps[si].name.clone();
+                        let full = kid(pool, owner);
+                        let mut cands: Vec<String> = vec![
+                            step.clone(),
+                            format!("{}.{}", step, full),
+                            format!("{}-{}", step, short),
+                            format!("{}.{}", short, step),
+                            format!("{}.{}", step, &short[..7]),
+                            format!("{}.{}", step.trim_matches('.'), short),
+                            format!("{}.{}", step.to_uppercase(), short),
+                        ];
+                        // the step name with its last dot-separated part taken for an extension
+                        if let Some((a, _)) = step.rsplit_once('.') {
+                            if !a.is_empty() {
+                                for _ in 0..4 {
+                                    cands.push(format!("{}.{}", a, short));
+                                }
+                            }
+                        }
+                        cands.retain(|c| *c != subname && !s.dir.subs.iter().any(|x| x.0 == *c) && !s.dir.files.iter().any(|x| x.0 == *c));
+                        if cands.is_empty() {
+                            return None;
+                        }
+                        s.dir.subs[sp].0 = r.pick(&cands).clone();
+                        desc = format!("the sub-layout's links are in `{}` instead of its own sub-directory `{}`", s.dir.subs[sp].0, subname);
                     }
                     "sub_missing_link" | "sub_links_in_parent" | "sub_unauthorized_inner" => {
                         let il = layout_mut(b)?.clone();
